@@ -35,12 +35,15 @@ CHECKS['C05'] = dict(
     design='4/C05')
 CHECKS['C01'] = dict(
     text='Partial proof: (1) the pass pipeline extracted from PyToPy.transform_ast on every run is proved to satisfy the ordering '
-         'constraints the lowering passes rely on (pipeline_order_sound); (2) the break and the continue canonicalisation passes are '
-         'modelled as executable Gallina (the actual guard-placement state machine) and proved semantics-preserving for all programs '
-         'of a lowering language with opaque user atoms, all stores, all decision sequences (break_lowering_correct, '
-         'continue_lowering_correct, mutual induction over a relational big-step semantics, linked to the fuelled interpreter); the '
-         'models are tied to break_statements.py / continue_statements.py on every run by structural comparison of their outputs on '
-         'the real passes\' inputs. The end-to-end claim (13 passes + loader) is validated, not proved: a differential oracle runs original vs '
+         'constraints the lowering passes rely on (pipeline_order_sound); (2) the break, continue and return canonicalisation passes '
+         '(incl. ConditionalReturnRewriter) are modelled as executable Gallina (the actual guard-placement state machines) and proved '
+         'semantics-preserving for all programs of a lowering language with opaque user atoms -- if / while / for / break / continue / '
+         'return / with / try-else-finally under an exception-free semantics -- all stores, all decision sequences '
+         '(break_lowering_correct, continue_lowering_correct, return_lowering_correct: mutual induction over a relational big-step '
+         'semantics, linked to the fuelled interpreter); the models are tied to break_statements.py / continue_statements.py / '
+         'return_statements.py on every run by structural comparison of their outputs on the real passes\' inputs (~280 generated '
+         'programs). Proving the try/else case exposed a defect in the first repair of /repo, since corrected. '
+         'The end-to-end claim (13 passes + loader) is validated, not proved: a differential oracle runs original vs '
          'malt.to_graph(original) on seeded generated programs x decision vectors x option sets (recursive on/off, feature sets) and '
          'compares return value, ordered external-call log, exception type, mutated arguments and module globals.',
     note=NOTE_BASE + 'Composition of all passes is validated by differential testing only. Known findings listed in '
